@@ -19,6 +19,8 @@ type Ev struct {
 	env    map[string]*Val
 	pkg    *types.Package
 	locals bool // resolve names of local cells of fr.Fn
+	mutate bool // lemma `let` steps: calls to Go functions keep their effects (allocations) in ev.st
+	freshBase *Term
 }
 
 var mathT = types.Typ[types.UntypedInt]
@@ -59,6 +61,10 @@ func (fr *Frame) evalInt(e *SExpr, st, old *State, env map[string]*Val) *Term {
 // evaluation of a callee's contract at a call site: names resolve in env and in the callee's package
 func (fr *Frame) evalBoolEnv(e *SExpr, st, old *State, env map[string]*Val) *Term {
 	ev := &Ev{fr: fr, c: fr.C, st: st, old: old, env: env, pkg: envPkg(env, fr)}
+	return ev.boolTerm(e)
+}
+func (fr *Frame) evalBoolEnvFresh(e *SExpr, st, old *State, env map[string]*Val, base *Term) *Term {
+	ev := &Ev{fr: fr, c: fr.C, st: st, old: old, env: env, pkg: envPkg(env, fr), freshBase: base}
 	return ev.boolTerm(e)
 }
 func (fr *Frame) evalEnv(e *SExpr, st, old *State, env map[string]*Val) *Val {
@@ -732,8 +738,30 @@ func (ev *Ev) call(e *SExpr) *Val {
 		v := ev.eval(args[0])
 		return mathVal(bigval(ev.st, v.X))
 	case "fresh":
+		// allocated during the call (at a call site: between the call's pre- and post-state; in the function's own
+		// postcondition: since function entry)
 		v := ev.eval(args[0])
-		return boolVal(Le(ev.fr.Entry.Alloc, v.X))
+		base := ev.fr.Entry.Alloc
+		if ev.freshBase != nil {
+			base = ev.freshBase
+		}
+		return boolVal(And(Le(base, v.X), Lt(v.X, ev.st.Alloc)))
+	case "store":
+		m := ev.eval(args[0])
+		k := ev.eval(args[1])
+		v := ev.eval(args[2])
+		if m.X == nil || !m.X.S.IsArr() {
+			specFail("store(m, k, v): m must be a model map")
+		}
+		kt := k.X
+		if k.K == KArr && m.X.S.Idx == SInt {
+			kt = arrAsInt(k)
+		}
+		vt := v.X
+		if v.K == KArr && m.X.S.Elem == SInt {
+			vt = arrAsInt(v)
+		}
+		return termVal(Store(m.X, kt, vt))
 	case "allocated":
 		v := ev.eval(args[0])
 		return boolVal(Lt(v.X, ev.st.Alloc))
@@ -821,6 +849,9 @@ func (ev *Ev) call(e *SExpr) *Val {
 		// lexicographic comparison of two byte strings, same abstraction as the model of bytes.Compare
 		x, y := ev.eval(args[0]), ev.eval(args[1])
 		return mathVal(ev.c.bytesCmp(ev.st, ev.viewOf(x), ev.viewOf(y)))
+	case "bytescmpv":
+		ev.c.orderAxioms()
+		return mathVal(App("bytes.cmp", SInt, ev.intTerm(args[0]), ev.intTerm(args[1])))
 	case "bytesval":
 		// abstract value of a byte slice: an uninterpreted function of (content, offset, length)
 		v := ev.eval(args[0])
@@ -865,7 +896,7 @@ func (ev *Ev) call(e *SExpr) *Val {
 		for _, a := range args {
 			avs = append(avs, ev.eval(a))
 		}
-		return ev.applyGoFn(fv.Fn, avs, e)
+		return ev.applyGoFnC(fv.Fn, avs, e, fv)
 	}
 	// method call x.M(args) where x evaluates to a value with a known method
 	if fn.Kind == "sel" {
@@ -998,6 +1029,10 @@ func (ev *Ev) applySpecFn(sf *SpecFn, args []*SExpr) *Val {
 // applyGoFn uses a Go function inside a specification: by its `function` contract (uninterpreted application + ensures) or by
 // symbolic execution of its body.
 func (ev *Ev) applyGoFn(fn *ssa.Function, args []*Val, e *SExpr) *Val {
+	return ev.applyGoFnC(fn, args, e, nil)
+}
+
+func (ev *Ev) applyGoFnC(fn *ssa.Function, args []*Val, e *SExpr, closure *Val) *Val {
 	c := ev.c
 	// coerce untyped math arguments to parameter types
 	for i, p := range fn.Params {
@@ -1007,6 +1042,9 @@ func (ev *Ev) applyGoFn(fn *ssa.Function, args []*Val, e *SExpr) *Val {
 	}
 	if con := c.contractFor(fn); con != nil && !con.Inline {
 		st := ev.st.clone()
+		if ev.mutate {
+			st = ev.st
+		}
 		c.noObligations++
 		r := ev.fr.applyContract(st, con, fn.String(), fn, fn.Signature, args, 0)
 		c.noObligations--
@@ -1016,8 +1054,22 @@ func (ev *Ev) applyGoFn(fn *ssa.Function, args []*Val, e *SExpr) *Val {
 		specFail("function %s cannot be used in a spec (no contract, not inlinable)", fn)
 	}
 	st := ev.st.clone()
+	if ev.mutate {
+		c.noObligations++
+		r, ns := ev.fr.inline(ev.st, fn, args, closure, 0)
+		c.noObligations--
+		if r == nil || ns == nil {
+			specFail("function %s does not return", fn)
+		}
+		ns.R = ev.st.R
+		*ev.st = *ns
+		return r
+	}
 	c.noObligations++
-	r, _ := ev.fr.inline(st, fn, args, nil, 0)
+	if closure != nil && len(closure.Binds) == 0 {
+		closure = nil
+	}
+	r, _ := ev.fr.inline(st, fn, args, closure, 0)
 	c.noObligations--
 	if r == nil {
 		specFail("function %s does not return", fn)
@@ -1094,9 +1146,10 @@ func (ev *Ev) viewOf(v *Val) bview {
 // bytesCmp is the shared model of bytes.Compare: an uninterpreted three-valued function on views that is antisymmetric and
 // zero exactly on equal contents (the lexicographic definition itself is not unfolded).
 func (c *Ctx) bytesCmp(st *State, x, y bview) *Term {
-	vx := App("bytesview", SInt, x.arr, x.off, x.ln)
-	vy := App("bytesview", SInt, y.arr, y.off, y.ln)
+	vx := App("bytesval", SInt, x.arr, x.off, x.ln)
+	vy := App("bytesval", SInt, y.arr, y.off, y.ln)
 	r := App("bytes.cmp", SInt, vx, vy)
+	c.orderAxioms()
 	c.addFact(And(Le(Num(-1), r), Le(r, Num(1))))
 	c.addFact(Eq(App("bytes.cmp", SInt, vy, vx), Neg(r)))
 	c.addFact(Implies(Eq(vx, vy), Eq(r, Num(0))))
